@@ -80,7 +80,7 @@ class P(Property):
             'trailers x peer SETTINGS carrying MAX_FIELD_SECTION_SIZE in {absent frame, absent parameter, 0, 41, 42, 43, 1000, 2^62-1} (decides '
             'whether the 431 answer is written); observed: delivered or header-too-big, error scope, the HEADERS payload written in reaction '
             '(decoded by the reference decoder: must be :status 431), stop/reset codes, connection close. lim.rx variants: the stream split() and its receive half used, the request sent through a clone of SendRequest taken before / after the peer SETTINGS (small own limit with a generous peer and the reverse), trailers read without recv_data, recv_trailers first polled before the FIN, the HEADERS frame in three chunks, the second request stream; peer SETTINGS are realistic (QPACK, datagram, extended-connect and grease parameters with MAX_FIELD_SECTION_SIZE first / middle / last / absent); lim.adv: the MAX_FIELD_SECTION_SIZE each endpoint writes in its own SETTINGS equals the configured limit. lim.tx: own limit (irrelevant, '
-            'varied) x peer limit P in {absent,0,1,41,42,43,75,167,199..202,1000,2500,2^32,2^62-1, seeded} x programs of send_request / '
+            'varied) x peer limit P in {absent,0,1,41,42,43,75,167,199..202,1000,2500,8192 (16383, 16384, 40000 in thorough),2^32,2^62-1, seeded} x programs of send_request / '
             'send_response / send_trailers (sizes up to 2500: the extracted Huffman encoder model is quadratic) with sizes P-2..P+2 and seeded others, with the peer SETTINGS applied before, between or after '
             'the send attempts or never, and (lim.txw) while send_request is parked waiting for stream credit (0 bidirectional credit, SETTINGS processed, then credit granted); observed per call: Ok or HeaderTooBig and exactly what was written (decoded by the reference '
             'decoder: must be the intended field list). non-trivial = lim.rx cases with a valid section, lim.tx cases with a send call')
@@ -216,7 +216,7 @@ class P(Property):
                 out.append('lim.txw cli %d %s %d' % (rng.choice([0, 100, MAXL]), with_layout(rng, P), k))
         # peer limits between 2500 and 2^32: the varint boundary of the frame length and a large one (a few cases only: the
         # extracted Huffman encoder model is quadratic in the string length)
-        for Pb in (16383, 16384, 40000):
+        for Pb in ((8192,) if quick else (8192, 16383, 16384, 40000)):
             for d in (-1, 0, 1):
                 out.append('lim.tx cli 0 %s S,H%d' % (with_layout(rng, Pb), Pb + d))
                 out.append('lim.tx srv 1000 %s S,H%d,T%d' % (with_layout(rng, Pb), Pb + d, Pb - d))
